@@ -80,7 +80,7 @@ Record task := { tk_id : N; tk_inc : N; tk_new : bool; tk_rest : prog }.
 (* ModuleContext of one module: active flag; number of resets so far; remaining budget;
    shutdown_task; Driver::next_wakeup (None = SimTime::MAX); live timer entries sorted by
    deadline (FIFO among equal deadlines); tasks woken or spawned but not yet polled (FIFO);
-   number of try_join handles that finished with a panic; Stereotyp.on_panic_catch (a Cell of the
+   the JoinHandles given to join / try_join; Stereotyp.on_panic_catch (a Cell of the
    ModuleContext: it can be changed at any time, survives a reset, and is read by Harness::catch) *)
 Record mst := { active : bool; inc : N; bud : N; shut : option (option N);
   nw : option N; timers : list (N * task); ready : list task; hnd : list (N * N); catchf : bool }.
